@@ -336,9 +336,17 @@ def utf8Pair (kv : Str × Str) : Option (Bytes × Bytes) :=
   | some k, some v => some (k, v)
   | _, _ => none
 
+/-- `some` of all the values, or `none` if one is `none` -/
+def allSome {α : Type} : List (Option α) → Option (List α)
+  | [] => some []
+  | x :: t =>
+    match x, allSome t with
+    | some a, some r => some (a :: r)
+    | _, _ => none
+
 /-- the part a field specifies: its header lines (UTF-8) and its data bytes -/
 def partOf (f : RequestField) : Option Part :=
-  match (headerLines f).mapM utf8Pair, dataBytes f.data with
+  match allSome ((headerLines f).map utf8Pair), dataBytes f.data with
   | some hs, some d => some ⟨hs, d⟩
   | _, _ => none
 
